@@ -347,6 +347,13 @@ impl<U> NumDecompressor<U> where U: UnsignedLike {
     res
   }
 
+  // Verification hook (see verif.rs): the per-block bit bounds that gate the
+  // unchecked decoding path, and whether GCD arithmetic is used.
+  #[cfg(mwlon_quantile_compression_verif)]
+  pub(crate) fn verif_bounds(&self) -> (usize, usize, bool) {
+    (self.max_bits_per_num_block, self.max_overshoot_per_num_block, self.use_gcd)
+  }
+
   // Verification hook (see verif.rs): one dirty batch from a given state;
   // returns the result, the incomplete prefix (lower bound, remaining reps)
   // it leaves behind and the reader's bit index.
